@@ -602,6 +602,64 @@ def gen_valid_rhs_spec(rng):
     raise RuntimeError('generator could not produce a valid rhs spec')
 
 
+# ------------------------------------------------------------------------------------ matrix-free readers of partly irrelevant inputs
+
+def gen_leak_spec(rng):
+    """IndepVarComp d with 2-3 outputs; a sub-group g whose components each read one of them; matrix-free
+    component(s) outside g reading several outputs of g; only ONE output of d is a design variable, so inside the
+    relevant group g some components (and some inputs of the matrix-free readers) are irrelevant."""
+    def var(name, size, **kw):
+        d = {'name': name, 'size': size, 'units': None, 'up': 0, 'alias': None}
+        d.update(kw)
+        return d
+
+    def inp(name, size, src, si=None):
+        return {'name': name, 'size': size, 'units': None, 'src': src, 'src_indices': si, 'via': 'connect',
+                'at': 'root', 'at_len': 0, 'up': 0, 'alias': None, 'val': None}
+    nd = rng.randrange(2, 4)
+    dsz = [rng.randrange(1, 3) for _ in range(nd)]
+    comps = [{'path': 'd', 'kind': 'ivc', 'mf': False, 'sparse': False, 'ins': [],
+              'outs': [var('v%d' % k, dsz[k], val=[rng.randrange(-3, 4) for _ in range(dsz[k])]) for k in range(nd)]}]
+    gouts = []
+    for k in range(nd):
+        ci = len(comps)
+        osz = rng.randrange(1, 3)
+        path = 'g.e%d' % k if rng.random() < 0.8 else 'g.h.e%d' % k
+        comps.append({'path': path, 'kind': 'exp', 'mf': rng.random() < 0.3, 'sparse': False,
+                      'ins': [inp('x0', dsz[k], [0, k])],
+                      'outs': [var('y0', osz, A=[js(_rnd_mat(rng, osz, dsz[k]))], b=[rng.randrange(-2, 3) for _ in range(osz)])]})
+        gouts.append((ci, osz))
+    comps.sort(key=lambda c: (c['path'].count('.') == 0 and c['path'] != 'd', c['path'].startswith('g.h.')))
+    # indices moved by the sort: rebuild the map
+    order = {id(c): i for i, c in enumerate(comps)}
+    gouts = [(next(i for i, c in enumerate(comps) if c['path'].endswith('e%d' % k)), osz) for k, (_, osz) in enumerate(gouts)]
+    readers = []
+    for j in range(rng.randrange(1, 3)):
+        ci = len(comps)
+        ins = [inp('x%d' % k, osz, [gi, 0]) for k, (gi, osz) in enumerate(gouts)]
+        n = rng.randrange(1, 3)
+        if rng.random() < 0.4:
+            A, inv = _rnd_invertible(rng, n)
+            o = var('y0', n, Ay=[js(A)], Bx=[js(_rnd_mat(rng, n, i['size'])) for i in ins], c=[0] * n)
+            comps.append({'path': 'c%d' % j, 'kind': 'imp', 'mf': True, 'sparse': False, 'ins': ins, 'outs': [o],
+                          'Ainv': js(inv)})
+        else:
+            o = var('y0', n, A=[js(_rnd_mat(rng, n, i['size'])) for i in ins], b=[0] * n)
+            comps.append({'path': 'c%d' % j, 'kind': 'exp', 'mf': True, 'sparse': False, 'ins': ins, 'outs': [o]})
+        readers.append(ci)
+    spec = {'comps': comps, 'coupled': False}
+    dvk = rng.randrange(nd)
+    d = {'comp': 0, 'out': dvk, 'indices': None, 'units': None}
+    _rnd_scaling(rng, d, dsz[dvk])
+    spec['desvars'] = [d]
+    spec['responses'] = []
+    for ci in readers:
+        r = {'comp': ci, 'out': 0, 'alias': None, 'units': None, 'indices': None, 'type': 'con'}
+        _rnd_scaling(rng, r, comps[ci]['outs'][0]['size'])
+        spec['responses'].append(r)
+    return spec
+
+
 # ------------------------------------------------------------------------------------ solver scaling (C08)
 
 def with_scaling(spec, rng, pow2=True, route='add', only=None, prefer_group=False):
